@@ -307,7 +307,7 @@ func natSlicesSort(c *callCtx) []cont {
 	p := func(x *Term) *Term { return App("perm$"+sanitizeTag(newE.Name), SInt, x) }
 	q := func(x *Term) *Term { return App("perminv$"+sanitizeTag(newE.Name), SInt, x) }
 	st.assume(Forall([]*Term{j}, Implies(inr, And(Le(IntLit(0, SInt), p(j)), Lt(p(j), v.Len), Eq(Select(newE, j), Select(oldE, p(j))), Eq(q(p(j)), j)))))
-	st.assume(Forall([]*Term{j}, Implies(inr, And(Le(IntLit(0, SInt), q(j)), Lt(q(j), v.Len), Eq(p(q(j)), j)))))
+	st.assume(Forall([]*Term{j}, Implies(inr, And(Le(IntLit(0, SInt), q(j)), Lt(q(j), v.Len), Eq(p(q(j)), j), Eq(Select(newE, q(j)), Select(oldE, j))))))
 	return c.ret(nil)
 }
 
@@ -330,7 +330,7 @@ func natSlicesSortFunc(c *callCtx) []cont {
 	p := func(x *Term) *Term { return App("perm$"+sanitizeTag(newE.Name), SInt, x) }
 	q := func(x *Term) *Term { return App("perminv$"+sanitizeTag(newE.Name), SInt, x) }
 	st.assume(Forall([]*Term{j}, Implies(inr, And(Le(IntLit(0, SInt), p(j)), Lt(p(j), v.Len), Eq(Select(newE, j), Select(oldE, p(j))), Eq(q(p(j)), j)))))
-	st.assume(Forall([]*Term{j}, Implies(inr, And(Le(IntLit(0, SInt), q(j)), Lt(q(j), v.Len), Eq(p(q(j)), j)))))
+	st.assume(Forall([]*Term{j}, Implies(inr, And(Le(IntLit(0, SInt), q(j)), Lt(q(j), v.Len), Eq(p(q(j)), j), Eq(Select(newE, q(j)), Select(oldE, j))))))
 	return c.ret(nil)
 }
 
